@@ -122,7 +122,7 @@ fn search(unit: &str, tag: &str, tier: &str) -> Option<Value> {
         "c16_gc" if tag.starts_with("C15") => c15::search_tables(tier),
         "c16_gc" => c02::search(tag, tier).or_else(|| c16::search(tag, tier)),
         "c07_lr" | "c04_next" => c07::search(tag, tier),
-        "c06_moves" | "c06_dijkstra" | "c06_cpct" | "c06_rank" | "c05_apply" | "c05_cactus" | "c05_traverse" => if tag.starts_with("C07") { c07::search(tag, tier).or_else(|| c06::search(tag, tier)) } else { c06::search(tag, tier).or_else(|| c07::search(tag, tier)) },
+        "c06_moves" | "c06_dijkstra" | "c06_cpct" | "c06_rank" | "c05_apply" | "c05_cactus" | "c05_traverse" | "c05_error" => if tag.starts_with("C07") { c07::search(tag, tier).or_else(|| c06::search(tag, tier)) } else { c06::search(tag, tier).or_else(|| c07::search(tag, tier)) },
         "c12_header" => c12::search(tag, tier),
         "c12_span" => c12::search_span(),
         "c12_dupocc" => c12::search_dupocc(tag, tier).or_else(|| c11::search(tag, tier)),
